@@ -30,6 +30,7 @@ def strip_sub_adds(node, top=True):
 class FlatParamStream(Stream):
     name = "params"
     hygienic = True
+    twins = False
     imports = "Field Matrix Base Kernel Network Solve Params Flatten Corr"
     case_type = "flat_case"
     verdict_fn = "flatp_verdict"
@@ -40,7 +41,9 @@ class FlatParamStream(Stream):
         out = []
         while len(out) < n:
             paramlib._FRESH[0] = 10
-            t = paramlib.gen_tree(rng, rng.choice([2, 2, 3, 3]), hygienic=self.hygienic)
+            t = paramlib.gen_tree(rng, rng.choice([2, 2, 3, 3]), hygienic=self.hygienic, twins=self.twins)
+            if self.twins and '"twin_of"' not in json.dumps(t):
+                continue
             if "children" not in t or not any("children" in ch["node"] for ch in t["children"]):
                 continue
             strip_sub_adds(t)
@@ -92,7 +95,7 @@ class FlatParamStream(Stream):
         for i, ch in enumerate(t["children"]):
             if len(t["children"]) > 1:
                 e = copy.deepcopy(d)
-                del e["tree"]["children"][i]
+                paramlib.drop_child(e["tree"], i)
                 paramlib.sanitize(e["tree"])
                 out.append(e)
             for j in range(len(ch["rmap"])):
@@ -150,6 +153,16 @@ def m_flatten_shadow(st, d, v):
     # only the verdict "the implementation matches the model of the flattened solver, and that
     # differs from the nested meaning" is the known finding; anything else is a new violation
     return st.name == "params_shadow" and "tree" in d and nonhygienic(d["tree"]) and v == "Differ"
+
+
+class FlatTwinStream(FlatParamStream):
+    """the same sub-solver placed twice (or more) under different hygienic renamings, then flattened: each
+    placement must keep its own renaming"""
+    name = "params_twins"
+    twins = True
+
+    def generate(self, rng, tier):
+        return super().generate(rng, tier)[:80 if tier == "quick" else 1000]
 
 
 class FlatWiringStream(Stream):
@@ -215,7 +228,7 @@ TRUSTED = [
 ]
 
 if __name__ == "__main__":
-    main("C11", [FlatParamStream(), FlatWiringStream(), FlatShadowStream()],
+    main("C11", [FlatParamStream(), FlatTwinStream(), FlatWiringStream(), FlatShadowStream()],
          matchers={"flatten_shadowing": m_flatten_shadow},
          level_text="props/C11.v; the tie flattens hierarchies on /repo and compares (wiring) the flattened solver's matrix with "
                     "the nested and the flat model and (parameters) for the empty assignment, each single visible parameter and "
